@@ -4,6 +4,7 @@ import TrucModel.Model.Gen
 import TrucModel.Model.Machine
 import TrucModel.Model.Static
 import TrucModel.Model.CloneSerde
+import TrucModel.Model.TypeName
 /-
   Line-protocol driver (channel L): one request per line on stdin, one answer per line on stdout.
 -/
@@ -377,6 +378,11 @@ def infoStr (i : Info) : String :=
   s!"{i.name} {i.ty} {i.size} {i.align} {offStr i.offset} {if i.uninit then 1 else 0}"
 
 def dstep (s : DState) (line : String) : DState × String :=
+  if line.startsWith "tn " || line.trimAscii.toString == "tn" then
+    let arg := (line.drop 3).toString
+    let arg := if arg.endsWith "\n" then (arg.dropEnd 1).toString else arg
+    (s, match TN.normalize arg with | some n => "some " ++ n | none => "none")
+  else
   match line.trimAscii.toString.splitOn " " with
   | "reset" :: _ => ({}, "--")
   | "vec" :: toks => (s, V.run toks)
